@@ -98,6 +98,8 @@ struct World {
     poll_was: Option<u8>,
     cur_poll_expired: bool,
     in_window: bool,
+    last_status: Vec<u8>,
+    rx_inside: Option<usize>,
     /// datagrams accepted into the frame currently being built in each slot (independent encoder)
     building: Vec<Vec<Dg>>,
     /// frame bytes each pending request is expected to transmit
@@ -157,7 +159,36 @@ fn hook(site: u8, slot: u8) {
 }
 
 impl World {
+    fn edge_ok(a: u8, b: u8) -> bool {
+        a == b
+            || matches!((a, b), (0, 1) | (1, 2) | (1, 0) | (2, 3) | (3, 4) | (3, 2) | (4, 5) | (5, 6) | (4, 6) | (6, 7) | (7, 0))
+            || (matches!(a, 2 | 4 | 6) && matches!(b, 0 | 2))
+    }
+
     fn snap(&mut self) {
+        if self.mode == "c02" {
+            for i in 0..self.n {
+                let st = self.md.verif_slot(i).0;
+                if !Self::edge_ok(self.last_status[i], st) {
+                    self.oracle.push(format!("lifecycle-order: slot {} went from status {} to {}", i, self.last_status[i], st));
+                }
+                self.last_status[i] = st;
+                let parties = self.created[i].is_some() as u8 + self.received[i].is_some() as u8
+                    + self.sending[i].is_some() as u8 + (self.rx_inside == Some(i)) as u8;
+                if parties > 1 {
+                    self.oracle.push(format!("two-parties: slot {} has {} parties inside its buffer (builder={}, reader={}, tx={}, rx={})", i, parties,
+                        self.created[i].is_some(), self.received[i].is_some(), self.sending[i].is_some(), self.rx_inside == Some(i)));
+                }
+                // the status must name the party
+                let expect = if self.created[i].is_some() { Some(1) } else if self.received[i].is_some() { Some(7) }
+                    else if self.sending[i].is_some() { Some(3) } else if self.rx_inside == Some(i) { Some(5) } else { None };
+                if let Some(e) = expect {
+                    if st != e { self.oracle.push(format!("status-party-mismatch: slot {} status {} but the party inside implies {}", i, st, e)); }
+                } else if matches!(st, 1 | 3 | 5 | 7) {
+                    self.oracle.push(format!("status-without-party: slot {} status {} with nobody inside", i, st));
+                }
+            }
+        }
         self.obs.push(-1);
         for i in 0..self.n {
             let (st, key, used) = self.md.verif_slot(i);
@@ -185,6 +216,7 @@ impl World {
     fn at_site(&mut self, site: u8, slot: u8, rng: &mut Rng) {
         match site {
             1 if self.win_rx.is_some() => {
+                self.rx_inside = Some(slot as usize);
                 self.obs.extend([5, slot as i64]);
                 self.snap();
                 self.rx_phase = 1;
@@ -372,6 +404,7 @@ impl World {
         let res = std::panic::catch_unwind(std::panic::AssertUnwindSafe(|| rx.receive_frame(bytes)));
         self.rx = Some(rx);
         self.win_rx = None;
+        self.rx_inside = None;
         let code = match res {
             Err(_) => {
                 self.obs.push(-99);
@@ -618,7 +651,8 @@ fn mutate(base: &[u8], rng: &mut Rng, cap: usize) -> Vec<u8> {
 fn step(w: &mut World, rng: &mut Rng) {
     let n = w.n;
     let cap = w.cap;
-    let windows = w.mode == "c06" || w.mode == "c01";
+    let windows = w.mode == "c06" || w.mode == "c01" || w.mode == "c02";
+    let no_deadline = w.mode == "c02";
     let mut ch: Vec<u8> = vec![0, 0]; // alloc
     let cr: Vec<usize> = (0..n).filter(|i| w.created[*i].is_some()).collect();
     let fu: Vec<usize> = (0..n).filter(|i| w.futs[*i].is_some()).collect();
@@ -722,7 +756,7 @@ fn step(w: &mut World, rng: &mut Rng) {
         }
         7 => {
             let i = *rng.pick(&fu);
-            if !w.in_window && rng.chance(1, 3) {
+            if !w.in_window && !no_deadline && rng.chance(1, 3) {
                 clock::advance(*rng.pick(&[30u64, 60, 200, 2000]));
             }
             let windowed = windows && !w.in_window && rng.chance(1, 3);
@@ -734,7 +768,13 @@ fn step(w: &mut World, rng: &mut Rng) {
         }
         8 => {
             let i = *rng.pick(&fu);
-            w.drop_fut(i);
+            let st = w.md.verif_slot(i).0;
+            if no_deadline && (st == 3 || st == 5) {
+                // abandonment while TX/RX is inside the buffer is C06's window, not part of C02
+                w.tx_claim();
+            } else {
+                w.drop_fut(i);
+            }
         }
         _ => {
             let i = *rng.pick(&re);
@@ -779,6 +819,8 @@ fn new_world<const N: usize, const D: usize>(mode: &str) -> Box<World> {
         poll_was: None,
         cur_poll_expired: false,
         in_window: false,
+        last_status: vec![0; N],
+        rx_inside: None,
         building: (0..N).map(|_| Vec::new()).collect(),
         expect: (0..N).map(|_| None).collect(),
         expect_tx: (0..N).map(|_| None).collect(),
